@@ -208,7 +208,21 @@ pub fn alloc<'gc>(mc: &Mutation<'gc>, kind: Kind, id: Id) -> AnyGc<'gc> {
                 bx: Box::new(lock_none()),
                 arr: [lock_none(), lock_none()],
                 vec: vec![lock_none(), lock_none()],
-                vd: VecDeque::from([lock_none()]),
+                vd: {
+                    // wrapped: the slot in use lies in the second of as_slices()
+                    let mut d: VecDeque<Lock<Edge<'gc>>> = VecDeque::with_capacity(4);
+                    let cap = d.capacity();
+                    for _ in 0..cap {
+                        d.push_back(lock_none());
+                    }
+                    for _ in 0..cap - 2 {
+                        d.pop_front();
+                    }
+                    for _ in 0..2 {
+                        d.push_back(lock_none());
+                    }
+                    d
+                },
                 bm: BTreeMap::from([(0u8, lock_none())]),
                 hm,
                 opt: Some(lock_none()),
@@ -281,7 +295,7 @@ pub fn alloc<'gc>(mc: &Mutation<'gc>, kind: Kind, id: Id) -> AnyGc<'gc> {
                 bx: Box::new(None),
                 rc: std::rc::Rc::new(None),
                 ll: std::collections::LinkedList::from([None]),
-                vd: VecDeque::from([None]),
+                vd: wrapped_deque(None),
                 bh: std::collections::BinaryHeap::from([Keyed { k: 0, e: None }]),
                 bm: BTreeMap::from([(0u8, None)]),
                 bk: BTreeMap::from([(Keyed { k: 0, e: None }, 0u8)]),
@@ -289,6 +303,8 @@ pub fn alloc<'gc>(mc: &Mutation<'gc>, kind: Kind, id: Id) -> AnyGc<'gc> {
                 hm,
                 opt: Some(Some(None)),
                 res: Err(None),
+                en: Slotty::Ptr(None),
+                ln: Linky::Back { prev: None, tag: 7 },
                 fp: FaultPoint(id),
                 wt: (6, None),
                 wo: Some(Box::new(None)),
@@ -332,7 +348,7 @@ pub fn read_strong<'gc>(any: AnyGc<'gc>, k: usize) -> Edge<'gc> {
                 6 => *b.bx,
                 7 => *b.rc,
                 8 => *b.ll.front().unwrap(),
-                9 => b.vd[0],
+                9 => b.vd[DEQUE_SLOT],
                 10 => b.bh.peek().unwrap().e,
                 11 => b.bm[&0],
                 12 => b.bk.keys().next().unwrap().e,
@@ -340,6 +356,14 @@ pub fn read_strong<'gc>(any: AnyGc<'gc>, k: usize) -> Edge<'gc> {
                 14 => b.hm[&0],
                 15 => b.opt.unwrap().unwrap(),
                 16 => *b.res.as_ref().unwrap_err(),
+                17 => match &b.en {
+                    Slotty::Ptr(e) => *e,
+                    Slotty::Label(_) => None,
+                },
+                18 => match &b.ln {
+                    Linky::Back { prev, .. } => *prev,
+                    Linky::Named { next, .. } => *next,
+                },
                 _ => unreachable!(),
             }
         }
@@ -350,7 +374,7 @@ pub fn read_strong<'gc>(any: AnyGc<'gc>, k: usize) -> Edge<'gc> {
             3 | 4 => g.arr[k - 3].get(),
             5 => g.vec[0].get(),
             6 => g.vec[1].get(),
-            7 => g.vd[0].get(),
+            7 => g.vd[DEQUE_SLOT].get(),
             8 => g.bm[&0].get(),
             9 => g.hm[&0].get(),
             10 => g.opt.as_ref().unwrap().get(),
@@ -471,7 +495,7 @@ pub fn write_strong<'gc>(mc: &Mutation<'gc>, any: AnyGc<'gc>, self_id: Id, k: us
                 6 => *b.bx = v,
                 7 => b.rc = std::rc::Rc::new(v),
                 8 => *b.ll.front_mut().unwrap() = v,
-                9 => b.vd[0] = v,
+                9 => b.vd[DEQUE_SLOT] = v,
                 10 => {
                     b.bh.clear();
                     b.bh.push(Keyed { k: 0, e: v });
@@ -492,6 +516,8 @@ pub fn write_strong<'gc>(mc: &Mutation<'gc>, any: AnyGc<'gc>, self_id: Id, k: us
                 }
                 15 => b.opt = Some(Some(v)),
                 16 => b.res = Err(v),
+                17 => b.en = Slotty::Ptr(v),
+                18 => b.ln = Linky::Back { prev: v, tag: 7 },
                 _ => unreachable!(),
             }
             drop(b);
@@ -506,7 +532,7 @@ pub fn write_strong<'gc>(mc: &Mutation<'gc>, any: AnyGc<'gc>, self_id: Id, k: us
                 3 | 4 => field!(w, FieldNode, arr)[k - 3].unlock().set(v),
                 5 => field!(w, FieldNode, vec)[0usize].unlock().set(v),
                 6 => field!(w, FieldNode, vec).as_deref()[1usize].unlock().set(v),
-                7 => field!(w, FieldNode, vd)[0usize].unlock().set(v),
+                7 => field!(w, FieldNode, vd)[DEQUE_SLOT].unlock().set(v),
                 8 => field!(w, FieldNode, bm)[&0u8].unlock().set(v),
                 9 => field!(w, FieldNode, hm)[&0u8].unlock().set(v),
                 10 => field!(w, FieldNode, opt).as_write().unwrap().unlock().set(v),
